@@ -14,7 +14,7 @@ import (
 
 func init() {
 	props["C08"] = &propCheck{
-		lean: []string{"JSight.Props.C08", "JSight.Props.C08_Include"},
+		lean: []string{"JSight.Props.C08", "JSight.Props.C08_Include", "JSight.Props.C08_Project"},
 		exes: []string{"jsight-model", "jsight-ctx", "jsight-build"},
 		run:  runC08,
 		rule: "file names: all strings over {.,/,\\,a} up to the length bound + random; non-trivial = contains at least one of . / \\ ; projects: generated documents cut into files (depth, same file twice, several files from one place) and faulty include graphs",
